@@ -20,10 +20,30 @@ type csvConfig struct {
 }
 
 func csvWrite(table [][]string, cfg csvConfig, q rune, sep rune, quoteAll bool) string {
-	var rows []string
-	for _, row := range table {
-		var fs []string
-		for _, f := range row {
+	text, _ := csvWriteMixed(table, cfg, q, func(int) rune { return sep }, quoteAll)
+	return text
+}
+
+// csvWriteMixed writes the table with the j-th separator of the text chosen by sepAt (any configured
+// separator may join any two fields) and also returns the values a reader sees in order: a raw field
+// as written (nothing for an empty one), a quote-encoded field as its original text, every separator,
+// every line ending, and the empty end marker.
+func csvWriteMixed(table [][]string, cfg csvConfig, q rune, sepAt func(j int) rune, quoteAll bool) (string, []string) {
+	var sb strings.Builder
+	vals := []string{}
+	j := 0
+	for ri, row := range table {
+		if ri > 0 {
+			sb.WriteString(cfg.eol)
+			vals = append(vals, cfg.eol)
+		}
+		for fi, f := range row {
+			if fi > 0 {
+				sep := string(sepAt(j))
+				j++
+				sb.WriteString(sep)
+				vals = append(vals, sep)
+			}
 			needs := strings.ContainsAny(f, "\r\n")
 			for _, s := range cfg.seps {
 				if strings.ContainsRune(f, s) {
@@ -38,13 +58,17 @@ func csvWrite(table [][]string, cfg csvConfig, q rune, sep rune, quoteAll bool) 
 			// a field may always be written quote-encoded (the empty field as two quotes), except the
 			// single field of a one-field row, which written as two quotes is still one empty field
 			if needs || (quoteAll && len(row) > 1) {
-				f = string(q) + strings.ReplaceAll(f, string(q), string(q)+string(q)) + string(q)
+				sb.WriteString(string(q) + strings.ReplaceAll(f, string(q), string(q)+string(q)) + string(q))
+				vals = append(vals, f)
+			} else {
+				sb.WriteString(f)
+				if f != "" {
+					vals = append(vals, f)
+				}
 			}
-			fs = append(fs, f)
 		}
-		rows = append(rows, strings.Join(fs, string(sep)))
 	}
-	return strings.Join(rows, cfg.eol)
+	return sb.String(), append(vals, "")
 }
 
 // csvRead rebuilds the table from the token stream: field tokens, separator symbols, Eol tokens.
@@ -83,6 +107,14 @@ func csvRead(toks []tkTok, cfg csvConfig) [][]string {
 	return table
 }
 
+// a token list kept by the caller while the instance goes on reading other texts
+type csvKept struct {
+	raw   mv
+	table [][]string
+	text  string
+	later []string
+}
+
 var csvxMemo *simpleVerdict
 var csvxMu sync.Mutex
 
@@ -99,6 +131,15 @@ func (c *Ctx) csvxRun() *simpleVerdict {
 				cfgs = append(cfgs, csvConfig{seps, qs, eol})
 			}
 		}
+	}
+	// three separators, all of them used in one text
+	for i, eol := range []string{"\n", "\r", "\r\n", "\n\r"} {
+		cfgs = append(cfgs, csvConfig{[]rune{',', ';', '\t'}, [][]rune{{'"'}, {'"', '\''}}[i%2], eol})
+	}
+	// how often a table also goes through another entry point / the reconfigured instance / is kept and read again
+	mEntry, mTravel, mKept := 23, 16, 16
+	if c.Tier == "thorough" {
+		mEntry, mTravel, mKept = 5, 4, 4
 	}
 	nw := 12
 	parts := make([]*simpleVerdict, nw)
@@ -121,42 +162,91 @@ func (c *Ctx) csvxRun() *simpleVerdict {
 				}
 				return mSlice{arr}
 			}
+			// configure: setters are called in an order that never makes a separator equal to a configured quote
+			configure := func(x *tkHarness, cfg csvConfig, who string) bool {
+				if _, out := x.call("SetQuoteSymbols", runes([]rune{'\x01'})); out.kind != "ok" {
+					v.undec = "SetQuoteSymbols: " + out.why
+					return false
+				}
+				if _, out := x.call("SetFieldSeparators", runes(cfg.seps)); out.kind == "panic" {
+					v.bad = fmt.Sprintf("SetFieldSeparators(%q) on %s whose only quote symbol is U+0001 panics: %s - a valid choice of separators is refused", string(cfg.seps), who, out.why)
+					return false
+				} else if out.kind != "ok" {
+					v.undec = "SetFieldSeparators: " + out.why
+					return false
+				}
+				if _, out := x.call("SetQuoteSymbols", runes(cfg.quotes)); out.kind == "panic" {
+					v.bad = fmt.Sprintf("SetQuoteSymbols(%q) with separators %q on %s panics: %s - a valid choice of quote symbols is refused", string(cfg.quotes), string(cfg.seps), who, out.why)
+					return false
+				} else if out.kind != "ok" {
+					v.undec = "SetQuoteSymbols: " + out.why
+					return false
+				}
+				// re-configuring with the same valid choice, and extending it, is valid too
+				if _, out := x.call("SetFieldSeparators", runes(cfg.seps)); out.kind == "panic" {
+					v.bad = fmt.Sprintf("SetFieldSeparators(%q) a second time panics: %s - keeping a separator already in effect is refused", string(cfg.seps), out.why)
+					return false
+				}
+				if _, out := x.call("SetQuoteSymbols", runes(cfg.quotes)); out.kind == "panic" {
+					v.bad = fmt.Sprintf("SetQuoteSymbols(%q) a second time panics: %s - keeping a quote symbol already in effect is refused", string(cfg.quotes), out.why)
+					return false
+				}
+				return true
+			}
+			// one instance that lives through all configurations of this worker, reconfigured between tables
+			hr := c.newTkHarness("csv")
+			if why := hr.setOptions(1 << 6); why != "" {
+				v.undec = why
+				return
+			}
+			hrPast := "the default configuration"
 			for ci := w; ci < len(cfgs); ci += nw {
 				cfg := cfgs[ci]
-				// a fresh tokenizer per configuration: setters must be called in an order that never makes
-				// a separator equal to a configured quote
+				// a fresh tokenizer per configuration
 				h = c.newTkHarness("csv")
 				if why := h.setOptions(1 << 6); why != "" { // DecodeStrings
 					v.undec = why
 					return
 				}
-				if _, out := h.call("SetQuoteSymbols", runes([]rune{'\x01'})); out.kind != "ok" {
-					v.undec = "SetQuoteSymbols: " + out.why
+				if !configure(h, cfg, "a tokenizer") || !configure(hr, cfg, "a tokenizer that was configured with "+hrPast+" and used before") {
 					return
 				}
-				if _, out := h.call("SetFieldSeparators", runes(cfg.seps)); out.kind == "panic" {
-					v.bad = fmt.Sprintf("SetFieldSeparators(%q) on a tokenizer whose only quote symbol is U+0001 panics: %s - a valid choice of separators is refused", string(cfg.seps), out.why)
-					return
-				} else if out.kind != "ok" {
-					v.undec = "SetFieldSeparators: " + out.why
-					return
+				// readBack: the text through one entry point of one instance against the table (token lists) or
+				// against the values the writer put down (string lists); returns the token list value
+				readBack := func(x *tkHarness, who, entry string, table [][]string, text string, wantVals []string) mv {
+					v.runs++
+					show := fmt.Sprintf("separators %q quotes %q line ending %q: table %q written as %q", string(cfg.seps), string(cfg.quotes), cfg.eol, table, text)
+					if entry != "TokenizeBuffer" || who != "" {
+						show += " and read through " + entry + who
+					}
+					if entry == "TokenizeBufferToStrings" || entry == "TokenizeStreamToStrings" {
+						vals, kind, why := x.stringsVia(entry, text)
+						switch {
+						case kind == "panic":
+							v.bad = show + " panics: " + why
+						case kind != "ok":
+							v.undec = show + ": " + why
+						case fmt.Sprintf("%q", vals) != fmt.Sprintf("%q", wantVals) && v.bad == "":
+							v.bad = fmt.Sprintf("%s gives the values %q; the fields, separators and line endings written are %q", show, vals, wantVals)
+						}
+						return nil
+					}
+					raw, r := x.tokenizeVia(entry, text)
+					if r.kind == "panic" {
+						v.bad = show + " panics: " + r.why
+						return nil
+					}
+					if r.kind != "ok" {
+						v.undec = show + ": " + r.why
+						return nil
+					}
+					if got := csvRead(r.toks, cfg); fmt.Sprintf("%q", got) != fmt.Sprintf("%q", table) && v.bad == "" {
+						v.bad = fmt.Sprintf("%s is read back as %q [%s]", show, got, renderToks(r.toks))
+					}
+					return raw
 				}
-				if _, out := h.call("SetQuoteSymbols", runes(cfg.quotes)); out.kind == "panic" {
-					v.bad = fmt.Sprintf("SetQuoteSymbols(%q) with separators %q panics: %s - a valid choice of quote symbols is refused", string(cfg.quotes), string(cfg.seps), out.why)
-					return
-				} else if out.kind != "ok" {
-					v.undec = "SetQuoteSymbols: " + out.why
-					return
-				}
-				// re-configuring with the same valid choice, and extending it, is valid too
-				if _, out := h.call("SetFieldSeparators", runes(cfg.seps)); out.kind == "panic" {
-					v.bad = fmt.Sprintf("SetFieldSeparators(%q) a second time panics: %s - keeping a separator already in effect is refused", string(cfg.seps), out.why)
-					return
-				}
-				if _, out := h.call("SetQuoteSymbols", runes(cfg.quotes)); out.kind == "panic" {
-					v.bad = fmt.Sprintf("SetQuoteSymbols(%q) a second time panics: %s - keeping a quote symbol already in effect is refused", string(cfg.quotes), out.why)
-					return
-				}
+				otherEntries := []string{"TokenizeStream", "SetReader+NextToken", "TokenizeBufferToStrings", "TokenizeStreamToStrings"}
+				travelled := fmt.Sprintf(" by an instance that was configured with %s and used before", hrPast)
 				alpha := []string{"a", string(cfg.seps[0]), string(cfg.quotes[0]), "\n", "\r", "ж", "\v", "\f"}
 				// the default separator and quote are plain data once they are configured away
 				for _, dflt := range []rune{',', '"'} {
@@ -170,8 +260,8 @@ func (c *Ctx) csvxRun() *simpleVerdict {
 						alpha = append(alpha, string(dflt))
 					}
 				}
-				if len(cfg.seps) > 1 {
-					alpha = append(alpha, string(cfg.seps[1]))
+				for _, r := range cfg.seps[1:] {
+					alpha = append(alpha, string(r))
 				}
 				if len(cfg.quotes) > 1 {
 					alpha = append(alpha, string(cfg.quotes[1]))
@@ -204,6 +294,7 @@ func (c *Ctx) csvxRun() *simpleVerdict {
 					}
 				}
 				k := 0
+				var kept *csvKept
 				seconds := append([]string{"", "é€"}, alpha...)
 				for _, f1 := range fields {
 					for _, f2 := range seconds {
@@ -221,30 +312,57 @@ func (c *Ctx) csvxRun() *simpleVerdict {
 							}
 						}
 						q := cfg.quotes[k%len(cfg.quotes)]
-						sep := cfg.seps[k%len(cfg.seps)]
-						text := csvWrite(table, cfg, q, sep, k%5 == 0)
-						v.runs++
+						// any configured separator may join any two fields of one text
+						text, vals := csvWriteMixed(table, cfg, q, func(j int) rune { return cfg.seps[(k+j)%len(cfg.seps)] }, k%5 == 0)
 						if k%701 == 0 {
 							noteSample("CSV.roundtrip/tables", fmt.Sprintf("separators %q quotes %q eol %q: %q", string(cfg.seps), string(cfg.quotes), cfg.eol, text))
 						}
-						r := h.tokenize(text)
-						show := fmt.Sprintf("separators %q quotes %q line ending %q: table %q written as %q", string(cfg.seps), string(cfg.quotes), cfg.eol, table, text)
-						if r.kind == "panic" {
-							v.bad = show + " panics: " + r.why
-							continue
+						raw := readBack(h, "", "TokenizeBuffer", table, text, vals)
+						// the other entry points; the instance that was configured differently before
+						if k%mEntry == 0 {
+							readBack(h, "", otherEntries[(k/mEntry)%len(otherEntries)], table, text, vals)
 						}
-						if r.kind != "ok" {
-							v.undec = show + ": " + r.why
-							continue
+						if k%mTravel == 0 {
+							readBack(hr, travelled, tkListEntries[(k/mTravel)%len(tkListEntries)], table, text, vals)
 						}
-						got := csvRead(r.toks, cfg)
-						if fmt.Sprintf("%q", got) != fmt.Sprintf("%q", table) && (v.bad == "" || len(show) < 60) {
-							if v.bad == "" {
-								v.bad = fmt.Sprintf("%s is read back as %q [%s]", show, got, renderToks(r.toks))
+						// a token list handed out earlier still holds its table after the same instance read two more
+						if kept != nil {
+							kept.later = append(kept.later, text)
+							if len(kept.later) == 2 {
+								v.runs++
+								toks, why := h.readTokens(kept.raw)
+								if why != "" {
+									v.undec = "reading a kept token list again: " + why
+								} else if got := csvRead(toks, cfg); fmt.Sprintf("%q", got) != fmt.Sprintf("%q", kept.table) && v.bad == "" {
+									v.bad = fmt.Sprintf("separators %q quotes %q line ending %q: the token list returned for table %q (written as %q) reads as %q [%s] after the same instance tokenized %q and %q: the rows and fields recovered for the first table did not survive the later calls", string(cfg.seps), string(cfg.quotes), cfg.eol, kept.table, kept.text, got, renderToks(toks), kept.later[0], kept.later[1])
+								}
+								kept = nil
+							}
+						} else if k%mKept == 0 && raw != nil {
+							kept = &csvKept{raw: raw, table: table, text: text}
+						}
+					}
+				}
+				// format and zero-width characters, the last configurable characters and the characters around
+				// them are field text like any other: first, inner and last in the first field of the first row,
+				// through every entry point that reads a text
+				zs := []rune{0xFEFF, 0xFFFE, 0xFFFD, 0xFFFC, 0x200B, 0x2028, 0x2029, 0x00AD, 0x2060, 0x0085, 0x200E}
+				entries := append(append([]string{}, tkListEntries...), tkStringEntries...)
+				for zi, z := range zs {
+					for pi, f := range []string{string(z), string(z) + "id", "i" + string(z) + "d", "id" + string(z)} {
+						table := [][]string{{f, "x"}, {"y", f}}
+						if (zi+pi)%3 == 2 {
+							table = [][]string{{f}, {"x", ""}}
+						}
+						text, vals := csvWriteMixed(table, cfg, cfg.quotes[0], func(j int) rune { return cfg.seps[j%len(cfg.seps)] }, false)
+						for ei, entry := range entries {
+							if c.Tier == "thorough" || (zi+pi+ei+ci)%len(entries) == 0 {
+								readBack(h, "", entry, table, text, vals)
 							}
 						}
 					}
 				}
+				hrPast = fmt.Sprintf("separators %q and quotes %q", string(cfg.seps), string(cfg.quotes))
 			}
 		}(w)
 	}
@@ -265,7 +383,7 @@ func (c *Ctx) csvxRun() *simpleVerdict {
 
 func init() {
 	register(&Rule{ID: "CSV.roundtrip", Floor: 1,
-		Doc: "the CSV tokenizer evaluated abstractly (NewCsvTokenizer, SetFieldSeparators, SetQuoteSymbols, SetDecodeStrings, TokenizeBuffer) on tables written per the statement: 100 configurations (separator sets × quote sets × LF/CR/CRLF/LFCR) × every field over {letter, separators, quotes, LF, CR, non-Latin} up to length 2 paired with every single-character field, in three table shapes: the rows and fields come back exactly",
+		Doc: "the CSV tokenizer evaluated abstractly (NewCsvTokenizer, SetFieldSeparators, SetQuoteSymbols, SetDecodeStrings, TokenizeBuffer) on tables written per the statement: 104 configurations (separator sets × quote sets × LF/CR/CRLF/LFCR) × every field over {letter, separators, quotes, LF, CR, non-Latin} up to length 2 paired with every single-character field, in four table shapes, any configured separator between any two fields, format / zero-width characters at the edges of the first field, through every token-list and string-list entry point, on a fresh and on a reconfigured instance: the rows and fields come back exactly, and a kept token list still holds its table after later calls",
 		Run: func(c *Ctx) []*Obligation {
 			return emitSimple(c, "CSV.roundtrip", "csv.CsvTokenizer#table-roundtrip", c.Pos(c.MustFunc("csv", "", "NewCsvTokenizer").Pos()), c.csvxRun(), "tables round-trip")
 		}})
